@@ -277,8 +277,15 @@ func hDescOwner(o *HOwner) string {
 }
 
 func hWalk(os []*HOwner) (recs []hRec, links int) {
+	// an in-memory record reachable from several owners (the same pointer) is one record
+	seen := map[string]bool{}
 	add := func(p interface{}, typ, name string) {
-		recs = append(recs, hRec{ptr: fmt.Sprintf("%p", p), typ: typ, name: name})
+		ptr := fmt.Sprintf("%p", p)
+		if seen[ptr] {
+			return
+		}
+		seen[ptr] = true
+		recs = append(recs, hRec{ptr: ptr, typ: typ, name: name})
 	}
 	for _, o := range os {
 		add(o, "HOwner", o.Name)
